@@ -104,7 +104,7 @@ func runC09(t fataler, c c09Case) (string, c09Result) {
 	}
 	reading := true
 	switch c.Adv {
-	case "echo-delay":
+	case "echo-delay", "slow-take-slow-echo":
 		echo(c.Delay)
 	case "silent-not-reading":
 		reading = false
@@ -258,6 +258,15 @@ func runC09(t fataler, c c09Case) (string, c09Result) {
 			lc.End.AddInBudget(9010)
 		case "zero-window":
 			lc.End.SetInBudget(0) // the peer is there but takes nothing: every write of the library blocks
+		case "slow-take-slow-echo":
+			// the peer takes nothing for Delay (so the Close frame gets out only then), answers the Close
+			// frame another Delay later - both inside the 5 s each step is allowed - and keeps its transport open
+			lc.End.SetInBudget(0)
+			e.Go(func() {
+				if e.sleep(c.Delay) {
+					lc.End.SetInBudget(-1)
+				}
+			})
 		case "hangup":
 			lc.End.Close() // the peer is gone: reads end, writes fail in the transport
 		case "violation":
@@ -265,7 +274,7 @@ func runC09(t fataler, c c09Case) (string, c09Result) {
 		}
 	}
 	switch c.Adv {
-	case "silent-reading", "silent-not-reading", "echo-delay":
+	case "silent-reading", "silent-not-reading", "echo-delay", "slow-take-slow-echo":
 		res.Withheld = true
 	case "flood-frames", "flood-fragments", "flood-payload", "half-close", "violation", "hangup", "zero-window", "window-for-one-write":
 		res.Withheld = true
@@ -405,7 +414,7 @@ func c09Key(c c09Case) string {
 
 func TestC09(t *testing.T) {
 	rec := evid.For("C09")
-	rec.Rule = "enumerated matrix in virtual time: local state {idle, reader blocked, message half read, CloseRead active, writer blocked on a zero window, Writer open mid-message, Ping pending} [+ a Write / a streamed message started after the adversary acted] [+ a Ping whose frame is stuck in the transport while the peer already sends its Pong twice] [+ CloseRead called after the peer's Close frame has already closed the connection] [+ a Write with an endless context arriving while the close call is under way] [+ a peer that takes just what a blocked Write still has to send and then nothing again] x scripted adversary {gone (transport closed: writes fail), present but taking nothing (zero window), silent but reading, never reading, stall after k bytes of a frame for EVERY k (7/16/64-bit data frames, Ping, Close, non-final fragment; also with a complete Pong in the same segment in front of the piece), endless data frames, one endless payload, half-close, echo after 0/1/4.9/5.1/20 s, protocol violation} acting before or after the call x role x {Close, CloseNow, CloseRead + incoming data message, Close with an unsendable code, Close with a 124-byte reason}; then rapid-drawn combinations. Bounds asserted on the fake clock: Close <= 11 s, CloseNow <= 1 s, blocked calls and the CloseRead context <= 1 s after the library closed the transport. Non-trivial: the adversary withheld something the library was waiting for. distinct = (role, state, adversary, frame kind, k class, delay, op, timing)."
+	rec.Rule = "enumerated matrix in virtual time: local state {idle, reader blocked, message half read, CloseRead active, writer blocked on a zero window, Writer open mid-message, Ping pending} [+ a Write / a streamed message started after the adversary acted] [+ a Ping whose frame is stuck in the transport while the peer already sends its Pong twice] [+ CloseRead called after the peer's Close frame has already closed the connection] [+ a Write with an endless context arriving while the close call is under way] [+ a peer that takes just what a blocked Write still has to send and then nothing again] x scripted adversary {gone (transport closed: writes fail), present but taking nothing (zero window), silent but reading, never reading, stall after k bytes of a frame for EVERY k (7/16/64-bit data frames, Ping, Close, non-final fragment; also with a complete Pong in the same segment in front of the piece), endless data frames, one endless payload, half-close, echo after 0/1/4.9/5.1/20 s, taking the Close frame only after 1/4/4.9 s and echoing it as long after that again, protocol violation} acting before or after the call x role x {Close, CloseNow, CloseRead + incoming data message, Close with an unsendable code, Close with a 124-byte reason}; then rapid-drawn combinations. Bounds asserted on the fake clock: Close <= 11 s, CloseNow <= 1 s, blocked calls and the CloseRead context <= 1 s after the library closed the transport. Non-trivial: the adversary withheld something the library was waiting for. distinct = (role, state, adversary, frame kind, k class, delay, op, timing)."
 	var rc c09Case
 	if replayCase(t, &rc) {
 		var msg string
@@ -479,6 +488,13 @@ func TestC09(t *testing.T) {
 						}
 					}
 				}
+			}
+		}
+	}
+	for _, client := range []bool{false, true} {
+		for _, st := range []string{"idle", "reader-blocked", "closeread"} {
+			for _, d := range []time.Duration{time.Second, 4 * time.Second, 4900 * time.Millisecond} {
+				one(c09Case{Client: client, State: st, Adv: "slow-take-slow-echo", Delay: d, Op: "Close", When: "before"})
 			}
 		}
 	}
